@@ -45,6 +45,8 @@ pub enum Act {
     RemoveUnique(String),
     RemoveAt(usize),
     Sort,
+    /// `canonicalize()` (feature canonicalize): entries in UTF-16 key order, index rebuilt
+    Canonicalize,
     /// `get_mut(k)`: write v into every matching value
     GetMutWrite(String, Val),
     /// `iter_mut()`: write v into the value at position i
@@ -108,6 +110,7 @@ impl fmt::Display for Act {
             Act::RemoveUnique(k) => write!(f, "remove_unique({k})"),
             Act::RemoveAt(i) => write!(f, "remove_at({i})"),
             Act::Sort => write!(f, "sort()"),
+            Act::Canonicalize => write!(f, "canonicalize()"),
             Act::GetMutWrite(k, v) => write!(f, "get_mut_write({k},{v})"),
             Act::IterMutWrite(i, v) => write!(f, "iter_mut_write({i},{v})"),
             Act::GetUniqueMutWrite(k, v) => write!(f, "get_unique_mut_write({k},{v})"),
@@ -161,6 +164,7 @@ impl Act {
             "remove_unique" => Act::RemoveUnique(a[0].into()),
             "remove_at" => Act::RemoveAt(a[0].parse().ok()?),
             "sort" => Act::Sort,
+            "canonicalize" => Act::Canonicalize,
             "get_mut_write" => Act::GetMutWrite(a[0].into(), a[1].parse().ok()?),
             "iter_mut_write" => Act::IterMutWrite(a[0].parse().ok()?, a[1].parse().ok()?),
             "get_unique_mut_write" => Act::GetUniqueMutWrite(a[0].into(), a[1].parse().ok()?),
@@ -302,14 +306,14 @@ pub static SAW: std::sync::atomic::AtomicU8 = std::sync::atomic::AtomicU8::new(0
 /// audit is a deterministic function of exactly that, so it is run once per unique state.
 pub static AUDITED: std::sync::OnceLock<Vec<std::sync::Mutex<std::collections::HashSet<u64>>>> = std::sync::OnceLock::new();
 
-pub const KINDS: [&str; 28] = [
+pub const KINDS: [&str; 29] = [
     "push", "push_entry", "push_front", "push_entry_front", "insert", "insert_front", "remove", "remove_unique", "remove_at", "sort", "get_mut_write",
     "iter_mut_write", "get_unique_mut_write", "get_or_insert_with", "get_mut_or_insert_with_write", "clone", "extend_pairs", "extend_entries",
-    "from_iter_entries", "from_iter_pairs", "from_vec", "into_iter_from", "ref_mut_into_iter_write", "clone_from", "extend_entries_then_panic", "extend_pairs_then_panic", "get_or_insert_with_panicking", "get_mut_or_insert_with_panicking",
+    "from_iter_entries", "from_iter_pairs", "from_vec", "into_iter_from", "ref_mut_into_iter_write", "clone_from", "extend_entries_then_panic", "extend_pairs_then_panic", "get_or_insert_with_panicking", "get_mut_or_insert_with_panicking", "canonicalize",
 ];
 
 /// Transitions executed per operation kind (evidence: the outcome histogram of the search).
-pub static KIND_COUNT: [std::sync::atomic::AtomicU64; 28] = [const { std::sync::atomic::AtomicU64::new(0) }; 28];
+pub static KIND_COUNT: [std::sync::atomic::AtomicU64; 29] = [const { std::sync::atomic::AtomicU64::new(0) }; 29];
 
 impl Act {
     pub fn kind_index(&self) -> usize {
@@ -523,6 +527,11 @@ pub fn apply(real: &mut Object, model: &mut RObj<Val>, a: &Act, saw: &mut u8) ->
         Act::Sort => {
             real.sort();
             model.sort();
+        }
+        Act::Canonicalize => {
+            // (the values of the search are small integers, which canonicalization leaves alone)
+            real.canonicalize();
+            model.sort_utf16();
         }
         Act::GetMutWrite(k, v) => {
             let mut n = 0;
@@ -987,6 +996,7 @@ impl Model for ObjModel {
             }
         }
         out.push(Act::Sort);
+        out.push(Act::Canonicalize);
         out.push(Act::Clone);
         out.push(Act::CloneFrom(0));
         out.push(Act::CloneFrom(5));
